@@ -227,6 +227,9 @@ class ChangeScenario(Scenario):
                 if isinstance(opts.get('errors'), str):
                     opts['errors'] = getattr(kopf.ErrorsMode, opts['errors'])
                 kopf.subhandler(id=s['id'], **opts)(sfn)
+            if hid in self.params.get('execute_first', []):
+                # the parent runs its sub-handlers explicitly and goes on afterwards (its own outcome comes after theirs)
+                await kopf.execute()
             return await fn(**kw)
         parent.__name__ = parent.__qualname__ = hid
         return parent
